@@ -83,23 +83,25 @@ _ATOM_MEMO: typing.Dict[typing.Any, typing.Any] = {}
 
 
 def _path_atoms(p):
-    key = tuple(id(n) for n, _ in p.cnodes) + tuple(pol for _, pol in p.cnodes)
-    hit = _ATOM_MEMO.get(key)
-    if hit is not None and hit[0] is p.cnodes:
-        return hit[1]
     out = set()
     for n, pol in p.cnodes:
         if isinstance(n, str) or n is None:
             continue
-        try:
-            for a, ap in j2front.conj_terms(n, pol):
-                with j2front.xs_with(None):
-                    out.add((xs(a), ap))
-        except Exception:
-            continue
-    if len(_ATOM_MEMO) > 50000:
-        _ATOM_MEMO.clear()
-    _ATOM_MEMO[key] = (p.cnodes, out)
+        key = (id(n), pol)
+        hit = _ATOM_MEMO.get(key)
+        if hit is None or hit[0] is not n:
+            atoms = set()
+            try:
+                for a, ap in j2front.conj_terms(n, pol):
+                    with j2front.xs_with(None):
+                        atoms.add((xs(a), ap))
+            except Exception:
+                atoms = set()
+            if len(_ATOM_MEMO) > 200000:
+                _ATOM_MEMO.clear()
+            hit = (n, frozenset(atoms))
+            _ATOM_MEMO[key] = hit
+        out |= hit[1]
     return out
 
 
